@@ -142,10 +142,12 @@ type certSpec struct {
 	Foreign  string   `json:"foreign"`  // if set (indep only): an otherName of another OID carrying this text
 	Key      int      `json:"key"`
 	Nonce    string   `json:"nonce,omitempty"` // distinguishes otherwise identical certificates
+	NB       int64    `json:"nb,omitempty"`    // Validity "window": NotBefore / NotAfter as Unix seconds
+	NA       int64    `json:"na,omitempty"`
 }
 
 func (s certSpec) id() string {
-	return fmt.Sprintf("%s|%s|%s|%q|%q|%s|%q|%d|%s", s.Issuer, s.Validity, s.Usage, s.RNames, s.DNames, s.Enc, s.Foreign, s.Key, s.Nonce)
+	return fmt.Sprintf("%s|%s|%s|%q|%q|%s|%q|%d|%s", s.Issuer, s.Validity, s.Usage, s.RNames, s.DNames, s.Enc, s.Foreign, s.Key, s.Nonce) + fmt.Sprintf("|%d|%d", s.NB, s.NA)
 }
 
 func (p *pki) get(s certSpec) (*leaf, error) {
@@ -184,6 +186,8 @@ func (p *pki) build(s certSpec, l *leaf) error {
 		tpl.NotBefore, tpl.NotAfter = now.Add(-72*time.Hour), now.Add(-2*time.Hour)
 	case "notyet":
 		tpl.NotBefore, tpl.NotAfter = now.Add(2*time.Hour), now.Add(72*time.Hour)
+	case "window":
+		tpl.NotBefore, tpl.NotAfter = time.Unix(s.NB, 0), time.Unix(s.NA, 0)
 	default:
 		return fmt.Errorf("validity %q", s.Validity)
 	}
